@@ -14,8 +14,12 @@
   G3 LOOKUP       find_lanelet_by_shape filters tree candidates by `intersects` against the very
                   geometry queried with and maps hits through the id map; find_lanelet_by_position
                   pairs (input index, tree index) correctly and uses a boundary-inclusive predicate
-  G4 PROTOCOL     every class admitted as a query shape exports `shapely_object`; obstacle mapping
-                  goes through the lanelet polygon and the occupancy shape
+  G4 PROTOCOL     every class admitted as a query shape exports `shapely_object`; evaluated (c06ev):
+                  Lanelet.contains_points answers per point, in order, what the closed lanelet polygon
+                  answers (inside / outside / on the boundary; closed and open shapely predicates
+                  modelled); get_obstacles reports exactly the obstacles one of whose shapes intersects
+                  the lanelet at the asked time step; map_obstacles_to_lanelets files every lanelet's
+                  own non-empty answer under its id
 """
 import ast
 
